@@ -98,6 +98,10 @@ def make_engine(ir, h, known):
                             MOD + '/mint/storage.MintDB', MOD + '/mint/lightning.Client',
                             MOD + '/wallet/storage.WalletDB'):
                         ins['sched'] = c['iface'].rsplit('.', 1)[-1] + '.' + c['invoke']
+                    # the wallet's two HTTP primitives: a crash can strike before any request goes out
+                    elif c and ins['op'] == 'Call' and isinstance(c.get('fn'), dict) and c['fn'].get('k') == 'func' and c['fn'].get('n') in (
+                            MOD + '/wallet/client.get', MOD + '/wallet/client.httpPost'):
+                        ins['sched'] = 'HTTP.' + ('get' if c['fn']['n'].endswith('.get') else 'post')
     E.known = known
     return E
 
@@ -154,15 +158,22 @@ def _worker_task(args):
             E.run_path(h.entry, E.work.pop()); n += 1
         st = E.stats
         st['funcs'] = sorted(st['funcs']); st['leftover_work'] = list(E.work); st['leftover'] = 0; st.pop('sampled_labels', None)
+        from . import solver as _sv
+        st['xsolver'] = dict(_sv.XSTATS); _sv.XSTATS.update(sampled=0, agree=0, other_unknown=0, disagree=[])
         return st
     except Exception as e:
         return dict(error=traceback.format_exc(), leftover_work=[])
 
 def merge(stats):
     out = dict(paths=0, queries=0, solver_s=0.0, instrs=0, violations=[], known_hits={}, reached={}, asserts={}, funcs=set(),
-               unsupported=[], unknown=0, samples=[], completed=0, leftover=0, timeout=False, errors=[])
+               unsupported=[], unknown=0, samples=[], completed=0, leftover=0, timeout=False, errors=[],
+               xsolver=dict(sampled=0, agree=0, other_unknown=0, disagree=[]))
     for s in stats:
         if 'error' in s: out['errors'].append(s['error']); continue
+        x = s.get('xsolver')
+        if x:
+            for k in ('sampled', 'agree', 'other_unknown'): out['xsolver'][k] += x.get(k, 0)
+            out['xsolver']['disagree'] += x.get('disagree', [])
         for k in ('paths', 'queries', 'solver_s', 'instrs', 'unknown', 'leftover'): out[k] += s.get(k, 0)
         out['completed'] += s.get('completed', 0)
         out['violations'] += s['violations']; out['unsupported'] += s['unsupported']
@@ -322,6 +333,8 @@ def run_property(prop, harnesses, tier, level_text, assumptions, outside, nproc=
         if st['unsupported']:
             msgs = sorted(set(u['msg'] for u in st['unsupported']))
             inconclusive.append('%s: %d paths left the encodable fragment: %s' % (h.name, len(st['unsupported']), msgs[:3]))
+        if st['xsolver']['disagree']:
+            inconclusive.append('%s: a second solver disagrees with z3 5.1.0 on %d sampled queries, e.g. %s' % (h.name, len(st['xsolver']['disagree']), st['xsolver']['disagree'][0]))
         if st['timeout'] or st['leftover']:
             inconclusive.append('%s: exploration did not finish inside its budget (%d prefixes left)' % (h.name, st['leftover']))
         for lab in h.must_reach:
@@ -397,6 +410,10 @@ def run_property(prop, harnesses, tier, level_text, assumptions, outside, nproc=
         assertions=asserts,
         functions_encoded=func_hashes(ir, repo_funcs),
         frontend_s=round(fe_s, 2), solver='z3 %s (python API), timeout %ds/query' % (z3.get_version_string(), 30),
+        second_solvers=dict(solvers='z3 4.8.12 (/usr/bin/z3), cvc5 1.0.x', sampling='every %s-th decided query' % os.environ.get('VERIF_XSOLVER', '0'),
+                            sampled_queries=sum(r['xsolver']['sampled'] for r in results.values()), answers_agreeing=sum(r['xsolver']['agree'] for r in results.values()),
+                            answers_unknown_or_error=sum(r['xsolver']['other_unknown'] for r in results.values()),
+                            disagreements=sum([r['xsolver']['disagree'] for r in results.values()], [])[:5]),
         native_conformance_samples=conformance, outside_claim=outside, known_findings_printed=sorted(known_seen), confirmed_violations=confirmed, spurious_models=spurious[:10],
         inconclusive=inconclusive, exhaustive=False)
     write_evidence(prop, tier, seed, cov, assumptions + sum([h.assumptions for h in harnesses], []), time.time() - t0, len(confirmed))
